@@ -18,105 +18,71 @@ def mods():
 
 # ------------------------------------------------------------------------------------------ (1) evaluation
 
-def interp(e, env):
-    """independent interpretation of a sympy expression tree over fn.* (atoms looked up in env by name)"""
-    import sympy
-    if e.is_Symbol:
-        return env[str(e)]
-    if e.is_Number:
-        return env["__const__"](e)
-    if e.is_Add:
-        r = interp(e.args[0], env)
-        for a in e.args[1:]:
-            r = r + interp(a, env)
-        return r
-    if e.is_Mul:
-        r = interp(e.args[0], env)
-        for a in e.args[1:]:
-            r = r * interp(a, env)
-        return r
-    if e.is_Pow:
-        b, x = e.args
-        if x.is_Integer:
-            bb = interp(b, env)
-            k = int(x)
-            if k >= 0:
-                r = 1 + 0 * bb
-                for _ in range(k):
-                    r = r * bb
-                return r
-            r = 1 + 0 * bb
-            for _ in range(-k):
-                r = r / bb
-            return r
-        if x == sympy.Rational(1, 2):
-            return fn.sqrt(interp(b, env))
-        if x == sympy.Rational(-1, 2):
-            return 1 / fn.sqrt(interp(b, env))
-        raise NotImplementedError("power %r" % (x,))
-    if e == sympy.pi:
-        return env["__pi__"]
-    f = e.func.__name__
-    a = [interp(x, env) for x in e.args]
-    table = {"sin": fn.sin, "cos": fn.cos, "exp": fn.exp, "sqrt": fn.sqrt, "cosh": fn.cosh, "sinh": fn.sinh, "tanh": fn.tanh,
-             "asinh": fn.arcsinh, "acosh": fn.arccosh, "atan": fn.arctan}
-    if f in table:
-        return table[f](a[0])
-    if f == "tan":
-        return fn.sin(a[0]) / fn.cos(a[0])
-    if f == "atan2":
-        return fn.arctan2(a[0], a[1])
-    if f == "Abs":
-        return abs(a[0])
-    if f == "sign":
-        x = a[0]
-        # three-way case split (forks the explorer in symbolic mode), like numpy's own sign on an object
+class V:
+    """value-level twin of parameters.par_funcs: the same template evaluated directly on the values, with no sympy
+    expression (and therefore no sympy simplification under symbol assumptions) in between"""
+    sin, cos, exp, sqrt = staticmethod(fn.sin), staticmethod(fn.cos), staticmethod(fn.exp), staticmethod(fn.sqrt)
+    cosh, sinh, tanh = staticmethod(fn.cosh), staticmethod(fn.sinh), staticmethod(fn.tanh)
+    asinh, acosh, atan = staticmethod(fn.arcsinh), staticmethod(fn.arccosh), staticmethod(fn.arctan)
+    atan2 = staticmethod(fn.arctan2)
+    Abs = staticmethod(abs)
+    re, im, conjugate = staticmethod(fn.real), staticmethod(fn.imag), staticmethod(fn.conj)
+
+    @staticmethod
+    def arg(z):
+        return fn.arctan2(fn.imag(z), fn.real(z))
+
+    @staticmethod
+    def sign(x):
+        # three-way case split (forks the explorer in symbolic mode)
         if x > 0:
             return 1 + 0 * x
         if x < 0:
             return -1 + 0 * x
         return 0 * x
-    raise NotImplementedError(f)
 
 
 def templates():
-    """expression templates in free parameters x, y and a measured parameter m (everything ops.py builds with pf.*)"""
-    from strawberryfields.parameters import par_funcs as pf
+    """expression templates in free parameters x, y and a measured parameter m (everything ops.py builds with pf.*, plus the
+    non-holomorphic functions a user applies to a complex heterodyne outcome); P is par_funcs or its value-level twin V"""
     T = {
-        "x+y": lambda x, y, m: x + y, "x-2*y": lambda x, y, m: x - 2 * y, "x*y": lambda x, y, m: x * y,
-        "x/(1+y**2)": lambda x, y, m: x / (1 + y ** 2), "x**2": lambda x, y, m: x ** 2,
-        "sin(x)*2+1": lambda x, y, m: pf.sin(x) * 2 + 1, "cos(x+y)": lambda x, y, m: pf.cos(x + y),
-        "exp(-x**2)": lambda x, y, m: pf.exp(-x ** 2), "sqrt(1+x**2)": lambda x, y, m: pf.sqrt(1 + x ** 2),
-        "Abs(x)": lambda x, y, m: pf.Abs(x), "sign(x)": lambda x, y, m: pf.sign(x),
-        "asinh(-x/2)": lambda x, y, m: pf.asinh(-x / 2), "acosh(sqrt(1+x**2/4))": lambda x, y, m: pf.acosh(pf.sqrt(1 + (x / 2) ** 2)),
-        "atan(x/2)": lambda x, y, m: pf.atan(x / 2),
-        "0.5*atan2(-1/cosh(x),-tanh(x))": lambda x, y, m: 0.5 * pf.atan2(-1.0 / pf.cosh(x), -pf.tanh(x)),
-        "tanh(x)*y": lambda x, y, m: pf.tanh(x) * y, "-pi/2*sign(x)-atan(x)": lambda x, y, m: -np.pi / 2 * pf.sign(x) - pf.atan(x),
-        "m": lambda x, y, m: m, "2*m+x": lambda x, y, m: 2 * m + x, "sin(m)*y": lambda x, y, m: pf.sin(m) * y,
-        "x/sqrt(2*2)": lambda x, y, m: x / np.sqrt(2 * 2),
+        "x+y": lambda x, y, m, P: x + y, "x-2*y": lambda x, y, m, P: x - 2 * y, "x*y": lambda x, y, m, P: x * y,
+        "x/(1+y**2)": lambda x, y, m, P: x / (1 + y ** 2), "x**2": lambda x, y, m, P: x ** 2,
+        "sin(x)*2+1": lambda x, y, m, P: P.sin(x) * 2 + 1, "cos(x+y)": lambda x, y, m, P: P.cos(x + y),
+        "exp(-x**2)": lambda x, y, m, P: P.exp(-x ** 2), "sqrt(1+x**2)": lambda x, y, m, P: P.sqrt(1 + x ** 2),
+        "Abs(x)": lambda x, y, m, P: P.Abs(x), "sign(x)": lambda x, y, m, P: P.sign(x),
+        "sqrt(x**2)": lambda x, y, m, P: P.sqrt(x ** 2), "Abs(x*y)": lambda x, y, m, P: P.Abs(x * y),
+        "asinh(-x/2)": lambda x, y, m, P: P.asinh(-x / 2), "acosh(sqrt(1+x**2/4))": lambda x, y, m, P: P.acosh(P.sqrt(1 + (x / 2) ** 2)),
+        "atan(x/2)": lambda x, y, m, P: P.atan(x / 2),
+        "0.5*atan2(-1/cosh(x),-tanh(x))": lambda x, y, m, P: 0.5 * P.atan2(-1.0 / P.cosh(x), -P.tanh(x)),
+        "tanh(x)*y": lambda x, y, m, P: P.tanh(x) * y, "-pi/2*sign(x)-atan(x)": lambda x, y, m, P: -np.pi / 2 * P.sign(x) - P.atan(x),
+        "m": lambda x, y, m, P: m, "2*m+x": lambda x, y, m, P: 2 * m + x, "sin(m)*y": lambda x, y, m, P: P.sin(m) * y,
+        "Abs(m)": lambda x, y, m, P: P.Abs(m), "sqrt(m**2)": lambda x, y, m, P: P.sqrt(m ** 2), "sign(m)": lambda x, y, m, P: P.sign(m),
+        "x/sqrt(2*2)": lambda x, y, m, P: x / np.sqrt(2 * 2),
+        # complex (heterodyne) outcome
+        "cm:m*2+x": lambda x, y, m, P: m * 2 + x, "cm:re(m)": lambda x, y, m, P: P.re(m), "cm:2*im(m)": lambda x, y, m, P: 2 * P.im(m),
+        "cm:conjugate(m)": lambda x, y, m, P: P.conjugate(m), "cm:Abs(m)**2": lambda x, y, m, P: P.Abs(m) ** 2,
+        "cm:m*conjugate(m)": lambda x, y, m, P: m * P.conjugate(m), "cm:Abs(m)": lambda x, y, m, P: P.Abs(m),
+        "cm:m**2": lambda x, y, m, P: m ** 2,
     }
     return T
 
 
 def h_evaluate(g, name):
     import strawberryfields as sf
-    from strawberryfields.parameters import par_evaluate, FreeParameter, MeasuredParameter, par_regref_deps
+    from strawberryfields.parameters import par_evaluate, FreeParameter, MeasuredParameter, par_regref_deps, par_funcs
     from strawberryfields.program_utils import RegRef
     x, y = FreeParameter("x"), FreeParameter("y")
     rr = RegRef(3)
     m = MeasuredParameter(rr)
-    vx, vy, vm = g.real("x"), g.real("y"), g.real("m")
-    if name in ("sqrt(1+x**2)", "acosh(sqrt(1+x**2/4))"):
-        pass
+    vx, vy = g.real("x"), g.real("y")
+    vm = g.complex("m") if name.startswith("cm:") else g.real("m")
     x.val, y.val = vx, vy
     rr.val = sarray([vm]) if g.sym else np.array([vm])
-    e = templates()[name](x, y, m)
+    e = templates()[name](x, y, m, par_funcs)
     got = par_evaluate(e)
-    one = g.const(1) if g.sym else 1.0
-    env = {"{x}": vx, "{y}": vy, "q3": vm, "x": vx, "y": vy, "__const__": lambda c: (float(c) if not g.sym else _exact(c)) * one,
-           "__pi__": g.pi}
-    ref = interp(e, env)
-    if "atan" in name or "asinh" in name or "acosh" in name or "sign(x)-atan" in name:
+    ref = templates()[name](vx, vy, vm, V)
+    if "atan" in name or "asinh" in name or "acosh" in name or "arg(" in name:
         # angles are compared through their cosine and sine (and their range), hyperbolic arguments through sinh
         if "asinh" in name or "acosh" in name:
             g.eq("value.sinh", fn.sinh(got), fn.sinh(ref))
@@ -127,8 +93,8 @@ def h_evaluate(g, name):
     else:
         g.eq("value", got, ref)
     deps = par_regref_deps(e)
-    g.fact("par_regref_deps", deps == ({rr} if "m" in name.replace("atan", "").replace("tanh", "") and "m" in str(e.free_symbols if hasattr(e, "free_symbols") else "") or name in ("m", "2*m+x", "sin(m)*y") else set()),
-           detail=repr(deps))
+    uses_m = name.startswith("cm:") or name in ("m", "2*m+x", "sin(m)*y", "Abs(m)", "sqrt(m**2)", "sign(m)")
+    g.fact("par_regref_deps", deps == ({rr} if uses_m else set()), detail=repr(deps))
 
 
 def _exact(c):
